@@ -619,6 +619,14 @@ pub const HDR_COMMENT_SHAPES: &[(&str, &str)] = &[
     ("cm-exprs", "fn f() { let x /* = */ = 1; let y /* : */ : u8 /* = */ = 2; match x /* { */ { _ /* => */ => {} } if a /* { */ { } else /* { */ { } while b /* { */ { } for i /* in */ in c /* { */ { } loop /* { */ { } let s = S /* { */ { a /* : */ : 1 }; let c = |x /* | */| /* -> */ x; g /* ( */ (1); h.i /* ( */ (2); }\n"),
     ("str-attrs", "#[doc = \"{\"]\ntrait T where Self: Sized { fn f(); }\n#[doc = \"(\"]\nstruct S(u8);\n#[cfg(feature = \"{\")]\nimpl S { fn f() {} }\n#[doc = \"=\"]\ntype A = u8;\n#[doc = \";\"]\nstruct U;\n#[doc = \"where {\"]\nfn f<T>() where T: X {}\n"),
     ("str-headers", "impl Tr<{ \"{\".len() }> for S where S: Ch<{ \"where\".len() }> { fn f() {} }\nfn f(x: [u8; \"(\".len()]) -> [u8; \"{\".len()] { x }\nenum E { A = \"=\".len() as isize, B = '{' as isize }\n"),
+    ("pre-default", "trait T { default fn f(); default type X; default const C: u8; default unsafe fn g(&self); }\nimpl T for S { default fn f(); default type X = u8; default const C: u8 = 1; default fn h() {} }\n"),
+    ("pre-inner-attrs-empty", "impl Foo { #![attr] }\ntrait Bar { #![attr] }\nextern \"C\" { #![attr] }\n"),
+    ("pre-inner-attrs", "impl Foo { #![attr] fn f() {} }\ntrait Bar { #![attr] fn f(); }\nextern \"C\" { #![attr] fn f(); }\nmod m { #![attr] }\nfn f() { #![attr] }\n"),
+    ("pre-vec-brace-stmt", "fn v() { vec!{1, 2} let a = 1; }\n"),
+    ("pre-brace-macro-stmts", "fn w() { vec!{1, 2}; let a = 1; vec!(3); m!{4} let b = 2; n!{} o![5]; }\n"),
+    ("pre-async-use", "fn u() { let c = async use { 1 }; }\n"),
+    ("pre-use-closures", "fn u() { let d = use || 1; let e = async move { 1 }; let g = async { 2 }; let h = move || 3; }\n"),
+    ("pre-postfix-match", "fn m() { x.match { _ => 1 }; let y = z.match { A => 1, B => 2 }.w(); }\n"),
     ("macro-type", "trait T where m!({}): Sized { fn f(); }\nimpl Tr for m!({ x }) where m![{]: X { fn f() {} }\nfn f() -> m!({ }) { 1 }\nstruct S(m! { a });\ntype A = m!({);\n"),
 ];
 
